@@ -17,9 +17,11 @@ NoHost(hs) == {p \in HdrSet(hs) : p[1] # LitHost /\ p[1] # LitContentLength}
 FwdWhy(k, u, req) ==
     LET pu == ParseUrl(u) m == ParseMsg(C.ugot[k]) pos == " (request " \o ToString(k) \o ")" IN
     IF ~pu.ok THEN "machinery: route URL not valid for the reference"
-    ELSE IF Len(C.conns[k]) # 1 THEN "C12 a matching request caused " \o ToString(Len(C.conns[k])) \o " outbound connections" \o pos
-    ELSE IF C.conns[k][1].host # pu.host THEN "C12 connected to a host that is not the route URL's host" \o pos
-    ELSE IF C.conns[k][1].port # pu.port THEN "C12 connected to a port that is not the route URL's port (default by scheme)" \o pos
+    ELSE IF Len(C.conns[k]) > 1 THEN "C12 a matching request caused " \o ToString(Len(C.conns[k])) \o " outbound connections" \o pos
+    ELSE IF Len(C.conns[k]) = 0 /\ C.reused[k].host = <<>> THEN "C12 a matching request was forwarded to no upstream (no outbound connection, none reused)" \o pos
+    \* the request went over a new connection, or over the connection this client connection already had to that same upstream
+    ELSE IF (IF Len(C.conns[k]) = 1 THEN C.conns[k][1].host ELSE C.reused[k].host) # pu.host THEN "C12 connected to a host that is not the route URL's host" \o pos
+    ELSE IF (IF Len(C.conns[k]) = 1 THEN C.conns[k][1].port ELSE C.reused[k].port) # pu.port THEN "C12 connected to a port that is not the route URL's port (default by scheme)" \o pos
     ELSE IF StartsWith(Lower(u), LitHttps \o LitSchemeSep) THEN "ok"     \* https upstream: only the connection attempt is observable on SimNet
     ELSE IF ~m.complete \/ Len(m.parts) # 3 THEN "C12 the upstream did not receive a complete well-formed request" \o pos
     ELSE IF m.parts[1] # req.parts[1] THEN "C12 method not preserved" \o pos
